@@ -56,7 +56,8 @@ func newAllocator(size int) *allocator {
 // as a whole can be gc-ed.
 func (al *allocator) LNumber2I(v LNumber) LValue {
 	// first check for shared preloaded numbers
-	if v >= 0 && v < preloadLimit && float64(v) == float64(int64(v)) {
+	// (-0 compares equal to 0 but is a different number: 1/-0 is -inf; it must not become the preloaded +0)
+	if v >= 0 && v < preloadLimit && float64(v) == float64(int64(v)) && (v != 0 || 1/v > 0) {
 		return preloads[int(v)]
 	}
 
